@@ -9,6 +9,32 @@ fn opt(b: &Option<Vec<u8>>) -> String {
     b.as_ref().map(|b| hexd(b)).unwrap_or_else(|| "none".into())
 }
 
+/// `encpb noise <identityKey> <identitySig> <extensions>`: prost's encoder on a structured message,
+/// then prost's decoder on the bytes.
+pub(crate) fn encpb(t: &[&str]) -> Option<String> {
+    use crate::verif::c19::spec;
+    let [k, sg, ext] = t else { return None };
+    let extensions = if *ext == "none" {
+        None
+    } else {
+        let f: Vec<&str> = ext.split(',').collect();
+        let [ch, sm] = f.as_slice() else { return None };
+        Some(handshake_schema::NoiseExtensions {
+            webtransport_certhashes: spec::lb(ch)?,
+            stream_muxers: spec::lst(sm)?,
+            ..Default::default()
+        })
+    };
+    let m = handshake_schema::NoiseHandshakePayload {
+        identity_key: spec::ob(k)?,
+        identity_sig: spec::ob(sg)?,
+        extensions,
+        ..Default::default()
+    };
+    let bytes = m.encode_to_vec();
+    Some(format!("ok {} ==> {}", hexd(&bytes), pb(&bytes)))
+}
+
 /// Canonical dump of `handshake_schema::NoiseHandshakePayload::decode`.
 pub(crate) fn pb(bytes: &[u8]) -> String {
     match handshake_schema::NoiseHandshakePayload::decode(bytes) {
